@@ -474,7 +474,7 @@ def check_cli(ctx, specs, label):
                 ctx.tally("cli.no_genetic_haplotyping")
     if not terms:
         return
-    failing, errors = eval_checks("C03cli", HEADER, CLI_CHECKS, terms, shard=30)
+    failing, errors = eval_checks("C03cli", HEADER, CLI_CHECKS, terms, shard=10)
     if errors:
         raise RuntimeError("coq evaluation failed: " + errors[0][1])
     for lab, sig, what in (("L1trace", "components:trace-spec", "traced components are not the minima of the read-connected classes"),
